@@ -57,6 +57,12 @@ var hostileDigests = []string{
 	"sha1:" + strings.Repeat("0", 40),                         // other algorithm
 	"sha256:" + strings.Repeat("0", 62) + "%2F.",              // 64 characters with a separator
 	"sha256:" + strings.Repeat("0", 64) + "%2F..%2F..%2Fdata", // valid prefix then traversal
+	// 64 characters that a content-addressed store (<cache>/<n[0:2]>/<n[2:4]>/<n>/data) would
+	// resolve to the "data" file next to the store directories, resp. one level further up:
+	"sha256:" + strings.Repeat(".%2F", 31) + "..",
+	"sha256:" + strings.Repeat("%2E%2F", 31) + "%2E%2E",
+	"sha256:..%2F" + strings.Repeat(".%2F", 30) + ".",
+	"sha256:" + strings.Repeat("./", 31) + "..",
 }
 
 func genBICase(t *rapid.T) BICase {
@@ -131,11 +137,13 @@ func runBICase(c BICase) pbt.Verdict {
 	}
 	b, err := newBox()
 	if err != nil {
+		debugf("box: %v", err)
 		return pbt.Verdict{Discard: true, Classes: []string{"infra:box"}}
 	}
 	defer b.remove()
 	bi, err := newBindex(b)
 	if err != nil {
+		debugf("server: %v", err)
 		return pbt.Verdict{Discard: true, Classes: []string{"infra:server"}}
 	}
 	defer bi.close()
@@ -176,6 +184,7 @@ func runBICase(c BICase) pbt.Verdict {
 		resp := rawRequest(bi.srv.addr, method, target, nil, body)
 		after := b.snap()
 		what := fmt.Sprintf("request %d: %s %s -> %d", i, method, short(target), resp.status)
+		debugf("%s body=%q diff=%q", what, short(string(resp.body)), b.diff(before, after))
 
 		if d := b.diff(before, after); d != "" {
 			return pbt.Fail("build-index: a request changed files outside the store directories\n%s\nname after unescaping: %q\noutside changes: %s", what, ni.decoded, d)
